@@ -157,6 +157,9 @@ def conditional_part(ck, tier):
                 # the density still high at that bound
                 frac = rng.uniform(0.1, 0.9) * (hi[i] - lo[i]) / 15.0
                 point[i] = hi[i] - frac if (case // 2 + i) % 2 == 0 else lo[i] + frac
+            if mode == 3 and i >= 1 and case % 2 == 1:
+                # the conditioning coordinate of a LATER variable exactly on one of the sixteen search points of its own (different) bounds
+                point[i] = float(np.linspace(lo[i], hi[i], 16)[3 + (case + i) % 10])
         for i in range(n):      # conditional means depend on the (clipped) conditioning point
             others = [j for j in range(n) if j != i]
             cm[i] = mu[i] - (P[i, others] @ (point[others] - mu[others])) / P[i, i] if others else mu[i]
